@@ -376,7 +376,7 @@ def run():
             chk.cov['disagreements_checked'] += 1
             chk.violation('%s:model-mismatch:mode-%d:%s' % (site, c['bound'], c['cls']),
                           'exact output of the code differs from the model: %s / %s' % (impl[:100], m[:100]), replay,
-                          no_input=(c['op'] != 'feq'))
+                          no_input=(c['op'] != 'feq' and impl.startswith('ok')))
     # ---- stated guard: vMax <= vMin in periodic mode
     dcases = [{'v': F(-1), 'vMin': F(0), 'vMax': F(0), 'knots': [F(0), F(1), F(1, 4), F(4)], 'coeffs': [F(1)] * 7},
               {'v': F(-3), 'vMin': F(1), 'vMax': F(-1), 'knots': [F(-1), F(1), F(1, 2), F(4)], 'coeffs': [F(1)] * 7}]
@@ -393,7 +393,7 @@ def run():
     olines, oown = [], []
     for idx, (c, o) in enumerate(zip(ocases, ores)):
         if not isinstance(o, dict):
-            chk.violation('VParallelAdvection:construction', 'building / stepping the real object ended with %r' % (o,), {'case': c}, no_input=True)
+            chk.violation('VParallelAdvection:construction', 'building / stepping the real object ended with %r' % (o,), {'case': c})
             continue
         ls = object_lines(c, o)
         olines += ls
